@@ -334,21 +334,74 @@ def observe_reprojected(app, g, gsrs, rsrs, scale, variants, reqs, rng, problems
     return maps
 
 
+def observe_reprojected_infos(app, g, rsrs, scale, variants, n, rng, problems):
+    """feature-info requests in the SRS that the source does not speak: (clicked pixel on the grid, what the upstream is asked)"""
+    to_grid = merc_to_deg if rsrs == 'EPSG:3857' else deg_to_merc
+    from_grid = deg_to_merc if rsrs == 'EPSG:3857' else merc_to_deg
+    infos = []
+    for k in range(n):
+        cx, cy = rng.uniform(100, 1180), rng.uniform(100, 1180)
+        lres = rng.choice([20, 25, 40, 30, 60, 80, 15])
+        # the sizes of real clients (a map window, a tile, a small window around the click) and tiny ones
+        w, h = rng.choice([(256, 256), (101, 101), (300, 180), (3, 3), (1, 1), (rng.randint(1, 12), rng.randint(1, 12)),
+                           (rng.randint(20, 400), rng.randint(20, 400))])
+        if max(w, h) > 12:
+            lres = lres / 16.0                                          # (keeps large windows inside the grid)
+        X, Y = from_grid(cx * scale, cy * scale)
+        X2, _Y2 = from_grid((cx + lres) * scale, cy * scale)
+        rx = ry = X2 - X
+        bbox = (X - w / 2.0 * rx, Y - h / 2.0 * ry, X + w / 2.0 * rx, Y + h / 2.0 * ry)
+        ci, cj = rng.choice([(rng.randrange(w), rng.randrange(h)), (w - 1, h - 1), (0, 0), (w // 2, h // 2)])
+        version, latlon = rng.choice(variants)
+        b = (bbox[1], bbox[0], bbox[3], bbox[2]) if latlon else bbox
+        url = ('/service?SERVICE=WMS&VERSION=%s&REQUEST=GetFeatureInfo&LAYERS=lay&QUERY_LAYERS=lay&INFO_FORMAT=text/plain&STYLES='
+               '&%s=%s&BBOX=%r,%r,%r,%r&WIDTH=%d&HEIGHT=%d&FORMAT=image/png&%s=%d&%s=%d' % (
+                   (version, 'CRS' if version == '1.3.0' else 'SRS', rsrs) + tuple(b) +
+                   (w, h, 'I' if version == '1.3.0' else 'X', ci, 'J' if version == '1.3.0' else 'Y', cj)))
+        n0 = len(app.info_log)
+        r = app.get(url)
+        new = app.info_log[n0:]
+        if r.status_int == 200 and len(new) == 0:
+            continue          # the source was not asked (query point outside its coverage)
+        if r.status_int != 200 or len(new) != 1:
+            problems.append(('info-request-failed', 'GetFeatureInfo %s answered %s with %d upstream requests: %s' % (
+                url, r.status, len(new), r.text[:100])))
+            continue
+        u = new[0]
+        ub = [float(v) / scale for v in u['BBOX'].split(',')]
+        if u.get('VERSION') == '1.3.0' and u.get('CRS') in ('EPSG:4326', 'EPSG:31467'):
+            ub = [ub[1], ub[0], ub[3], ub[2]]
+        uw, uh = int(u['WIDTH']), int(u['HEIGHT'])
+        ui, uj = int(u.get('X', u.get('I'))), int(u.get('Y', u.get('J')))
+        sx, sy = (ub[2] - ub[0]) / max(uw, 1), (ub[3] - ub[1]) / max(uh, 1)
+        rect = [ub[0] + ui * sx, ub[3] - (uj + 1) * sy, ub[0] + (ui + 1) * sx, ub[3] - uj * sy]
+        px_, py_ = bbox[0] + (ci + 0.5) * rx, bbox[3] - (cj + 0.5) * ry
+        gx, gy = to_grid(px_, py_)
+        gx1, gy1 = to_grid(px_ + rx / 2.0, py_ + ry / 2.0)
+        gx0, gy0 = to_grid(px_ - rx / 2.0, py_ - ry / 2.0)
+        infos.append({'at': [int(round(gx / scale * 1000)), int(round(gy / scale * 1000)),
+                             int(round((gx1 - gx0) / scale * 1000)), int(round((gy1 - gy0) / scale * 1000))],
+                      'uw': uw, 'uh': uh, 'ui': ui, 'uj': uj, 'r': [int(round(v * 1000)) for v in rect],
+                      'url': url, 'client': [w, h, ci, cj], 'upstream': {k_: u[k_] for k_ in sorted(u) if k_ in ('BBOX', 'WIDTH', 'HEIGHT', 'X', 'Y', 'I', 'J', 'SRS', 'CRS')}})
+    return infos
+
+
 def reprojected_phase(ctx):
     thorough = ctx.tier == 'thorough'
     n = 400 if thorough else 120
     g = L.spec_grid('Gbig')
     for name, gsrs, scale, rsrs, variants in REPROJ:
         problems = []
-        app = L.LatticeApp(g, srs=gsrs, scale=scale, wms_srs=[gsrs, rsrs], meta_size=(1, 1))
+        app = L.LatticeApp(g, srs=gsrs, scale=scale, wms_srs=[gsrs, rsrs], meta_size=(1, 1), featureinfo=True)
         try:
             maps = observe_reprojected(app, g, gsrs, rsrs, scale, variants, reproj_requests(g, ctx.rng, n), ctx.rng, problems)
+            infos = observe_reprojected_infos(app, g, rsrs, scale, variants, n, ctx.rng, problems)
         finally:
             app.close()
         d = ctx.sub('tr-' + name.replace('/', '_').replace('<-', '_from_'))
         tf = os.path.join(d, 'cases.json')
         with open(tf, 'w') as f:
-            json.dump({'grid': g, 'ext': list(g['bbox']), 'maps': maps}, f)
+            json.dump({'grid': g, 'ext': list(g['bbox']), 'maps': maps, 'infos': infos}, f)
         mp, cp = tlc.write_mc(d, 'Trace_GeoReproj', 'MC_TGR', {}, spec='TraceSpec')
         r = tlc.run(mp, cp, d, workers=1, coverage=False, env={'TRACE_FILE': tf}, timeout=3000, heap='6g')
         pr = tlc.find_prints(r.out, 'verdict')
@@ -357,10 +410,22 @@ def reprojected_phase(ctx):
         v = pr[-1][1]
         if v['shown'] * 2 < len(maps) or len(maps) * 2 < n:
             raise tlc.MachineryError('vacuity: %s - only %d of %d reprojected requests answered with a picture' % (name, v['shown'], n))
-        ctx.cov['transitions'] += len(maps)
+        if len(infos) * 2 < n:
+            raise tlc.MachineryError('vacuity: %s - only %d of %d reprojected feature-info requests reached the upstream' % (name, len(infos), n))
+        ctx.cov['transitions'] += len(maps) + len(infos)
         ctx.cov['traces_validated_against_impl'] += 1
         for m in maps:
             ctx.count((name, 'reprojected', m['url']))
+        for m in infos:
+            ctx.count((name, 'reprojected-info', m['url']))
+        if v['info']:
+            c = infos[v['info'] - 1]
+            ctx.violation({'kind': 'featureinfo-position-reprojected', 'config': name},
+                          '%s: %d of %d feature-info requests in the other reference system are forwarded for a pixel that does not exist or '
+                          'lies more than one client pixel from the clicked point; e.g. client [width, height, x, y] = %s: %s -> upstream %s '
+                          '(clicked point and client pixel extent on the grid, 1/1000 units: %s; rectangle of the upstream pixel: %s)' % (
+                              name, v['ninfo'], len(infos), c['client'], c['url'], c['upstream'], c['at'], c['r']),
+                          {'grid': g, 'case': {'url': c['url'], 'config': name}})
         seen = set()
         for kind, text in problems:
             if kind not in seen:
@@ -375,7 +440,7 @@ def reprojected_phase(ctx):
                           'the grid in 1/1000 units) %s' % (name, v['nmap'], len(maps), v['map'], c['url'],
                                                             [(k - 1, c['px'][k - 1], c['at'][k - 1]) for k in bad]),
                           {'grid': g, 'case': {'url': c['url'], 'config': name}})
-        ctx.log('%s: %d reprojected map requests (%d bad)' % (name, len(maps), v['nmap']))
+        ctx.log('%s: %d reprojected map requests (%d bad), %d feature-info requests (%d bad)' % (name, len(maps), v['nmap'], len(infos), v['ninfo']))
 
 
 CONFIGS = [
